@@ -170,16 +170,22 @@ func (m *MmsTables) writeCompactedFileInfo(name string, oldFiles, newFiles []TSS
 		return "", err
 	}
 
+	// A log that could not be written and synced completely must not stay behind: the caller gives the replacement up and
+	// the store lives on, so a later start-up would roll this replacement forward against files that have changed since.
 	s, err := fd.Write(buf)
 	if err != nil || s != len(buf) {
 		err = fmt.Errorf("write compact file info log fail, write %v, size %v, err:%v", s, len(buf), err)
 		log.Error("write compact file info log fail", zap.Int("write", s), zap.Int("size", len(buf)), zap.Error(err))
-		panic(err)
+		_ = fd.Close()
+		_ = fileops.Remove(fName, lock)
+		return "", err
 	}
 
 	if err = fd.Sync(); err != nil {
-		log.Error("sync compact log file file")
-		panic(err)
+		log.Error("sync compact log file file", zap.Error(err))
+		_ = fd.Close()
+		_ = fileops.Remove(fName, lock)
+		return "", err
 	}
 
 	return fName, fd.Close()
